@@ -31,8 +31,30 @@ FORMS = {
 }
 
 
+# whole modules: JSX at places other than an initialiser - wherever the transform copies or re-inserts syntax, the copy must be lowered too
+MODULES = {
+    'dc-default-static': "import {{ defineComponent }} from 'vue';\ninterface P {{ label?: string; icon?: () => any; el?: object }}\nexport default defineComponent((props: P = {{ label: 'ok', icon: () => <i class=\"dot\"/>, el: <b>x</b> }}) => () => <button>{{props.label}}</button>);",
+    'dc-default-dynamic': "import {{ defineComponent }} from 'vue';\nconst base: any = {{}};\nexport default defineComponent((props: {{ empty?: () => any }} = {{ ...base, empty: () => <i>nothing</i> }}) => () => null);",
+    'dc-default-getter': "import {{ defineComponent }} from 'vue';\nexport default defineComponent((props: {{ a?: object; m?(): any }} = {{ get a() {{ return <u/> }}, m() {{ return <s/> }} }}) => () => null);",
+    'dc-default-fn': "import {{ defineComponent }} from 'vue';\nexport const C = defineComponent(function (props: {{ a?: object }} = {{ a: <>frag</> }}) {{ return () => <Foo>{{props.a}}</Foo> }});",
+    'dc-options': "import {{ defineComponent }} from 'vue';\nexport const C = defineComponent((props: {{ a: string }}) => () => <p/>, {{ name: 'N', render: () => <div/>, slots: [<b/>] }});",
+    'dc-emits-body': "import {{ defineComponent, type SetupContext }} from 'vue';\nexport const C = defineComponent((props: {{ a: string }}, ctx: SetupContext<{{ (e: 'x'): void }}>) => () => <p onClick={{() => ctx.emit('x')}}/>);",
+    'class-members': "class K {{ static s = <a/>; f = () => <b/>; [v1] = <i/>; m(p = <u/>) {{ return <s>{{p}}</s> }} get g() {{ return <>g</> }} static {{ f1(<em/>) }} }}",
+    'params-patterns': "function g({{ a = <a/> }} = {{}}, [b = <b/>] = [], ...r) {{ return [a, b, r] }} const h = ({{ x: {{ y = <i/> }} = {{}} }}) => y;",
+    'templates-tags': "const t = `a${{<b/>}}c${{`n${{<i/>}}`}}`, u = f1`x${{<u/>}}`;",
+    'exports': "export default <div/>;\nexport const a = <a/>, b = [<b/>, ...[<i/>]];",
+    'ts-wrappers': "const a = (<a/> as any), b = (<b/>)!, c = (<i/> satisfies object), d = f1<string>(<u/>);\nenum E {{ A = 1 }}\nnamespace N {{ export const n = <s/> }}\nabstract class Q {{ p: any = <em/>; constructor(public q = <q/>) {{}} }}",
+    'control-flow': "if (v1) v2 = <a/>; else v2 = <b/>; for (const x of [<i/>]) f1(x); while (f1(<u/>)) break; do v3 = <s/>; while (0); switch (v1) {{ case <em/>: break }} try {{ throw <q/> }} catch (e) {{ f1(<p/>) }} lbl: v4 = <span/>;",
+    'objects': "const o = {{ a: <a/>, [f1(<b/>)]: 1, m() {{ return <i/> }}, get g() {{ return <u/> }}, set s(v) {{ f1(<s/>) }}, ...{{ z: <em/> }} }};",
+    'operators': "const r = v1 ? <a/> : <b/>, s = v1 || <i/>, t = (f1(), <u/>), u = [v1 && <s/>], w = typeof <em/>, y = void <q/>, z = new C1(<p/>), q = v1?.(<span/>), aw = async () => await <div/>; function* gen() {{ yield <li/>; yield* [<ul/>] }}",
+}
+
+
 def make_skeleton(spec):
     leaves = []
+    if 'module' in spec:
+        src = (PRELUDE if not spec['module'].startswith('dc-') else '') + MODULES[spec['module']] + '\n'
+        return Skeleton('c07#module:%s||' % spec['module'], src, leaves, {'optimize': 'sym', 'resolve_type': spec['module'].startswith('dc-') or 'sym'}, tsx=True, meta={'family': 'c07/module'})
     f = FORMS[spec['form']]
     if '{M}' in f:
         leaves.append(Leaf('M', 'str' if 'str-sym' in spec['form'] else 'jsstr', spec.get('n', 2)))
@@ -143,6 +165,8 @@ def jobs(tier):
                 out.append({'form': f, 'n': n})
         else:
             out.append({'form': f})
+    for m in MODULES:
+        out.append({'module': m})
     for pc in ('@jsx h extra words', '@jsxFrag F', '@jsx', '@jsx a.b', '@jsx 1x'):
         out.append({'form': 'key-hyphen', 'pragma_comment': pc})
     return [{'module': MOD, 'spec': s} for s in out]
